@@ -87,7 +87,7 @@ func (Engine) Run(t *tape.Tape, o eng.Opts) *eng.Result {
 		p.MaxActs = 5
 		p.NextMax = 2
 	}
-	cfg := sched.Config{Sched: t.Stream("sched"), Time: t.Stream("time"), MaxSteps: 6000}
+	cfg := sched.Config{Sched: t.Stream("sched"), Time: t.Stream("time"), MaxSteps: world.StepCap(6000)}
 	switch sw.Weighted(1, 4, 4, 3) {
 	case 0:
 		cfg.Policy = sched.PolRunToCompletion
@@ -213,7 +213,7 @@ func (Engine) Run(t *tape.Tape, o eng.Opts) *eng.Result {
 			if freshTwin {
 				tw = world.Build(setup, tall, opts)
 			}
-			tq.Local.SoloCap = 20000
+			tq.Local.SoloCap = world.StepCap(20000)
 			sched.SetSolo(&tq.Local)
 			tw.Serve(tq)
 			sched.SetSolo(nil)
@@ -246,7 +246,7 @@ func (Engine) Run(t *tape.Tape, o eng.Opts) *eng.Result {
 		pq := world.CloneForTwin([][]*world.Req{{cq}})[0][0]
 		pq.PlannedCancel = tq.PlannedCancel
 		w.Replace(pq)
-		pq.Local.SoloCap = 20000
+		pq.Local.SoloCap = world.StepCap(20000)
 		sched.SetSolo(&pq.Local)
 		w.Serve(pq)
 		sched.SetSolo(nil)
